@@ -211,6 +211,10 @@ func genCase(r *vh.Rand, i int, tier string) string {
 			emit("RESTART")
 			continue
 		}
+		if lag == 0 && !big && r.Chance(1, 40) {
+			emit("OLD")
+			continue
+		}
 		if lag == 0 && !big && r.Chance(1, 18) {
 			// several entries in one task
 			n := 2 + r.Intn(5)
